@@ -152,7 +152,7 @@ def _check(prop, tier, replay, C):
         cmd = [C.GO, "test", "-modfile", C.modfile(os.path.join(outdir, "gomod")),
                "-overlay", overlay, "-tags", "verif", "-vet=off", "-count=1",
                "-timeout", h.get("timeout_" + tier, "20m"), "-run", "^" + h["test"] + "$"] + \
-              h.get("go_flags", []) + [h["pkg"]]
+              h.get("go_flags", []) + h.get("go_flags_" + tier, []) + [h["pkg"]]
         sp = os.path.join(outdir, name + ".summary.json")
         rc, out = C.run(cmd, cwd=REPO, env=env)
         if rc != 0 and not os.path.exists(sp):
